@@ -230,6 +230,22 @@ func genC28(g *gen) {
 			return true
 		})
 	}
+	// initComponents hands the signing public key to the flooder whenever one is configured
+	// (and on no other condition, e.g. not only when sleep mode is enabled)
+	keyAlways := false
+	if fd := methods["initComponents"]; fd != nil {
+		ast.Inspect(fd.Body, func(x ast.Node) bool {
+			is, ok := x.(*ast.IfStmt)
+			if !ok || is.Init != nil {
+				return true
+			}
+			if strings.Contains(normSleepcmd(src(is.Body)), "floodCfg.SigningPublicKey = &signingPubKey") {
+				keyAlways = normSleepcmd(src(is.Cond)) == "a.cfg.HasSigningKey()"
+			}
+			return true
+		})
+	}
+	g.line("Definition gen_c28_flooder_gets_signing_key_whenever_configured : bool := %s.", coqBool(keyAlways))
 	g.line("Definition gen_c28_dispatch_ok : bool := %s.", coqBool(disp["protocol.FrameSleepCommand"] == "handleSleepCommand" &&
 		disp["protocol.FrameWakeCommand"] == "handleWakeCommand" && disp["protocol.FrameQueuedState"] == "handleQueuedState"))
 
@@ -516,6 +532,48 @@ func genC29(g *gen) {
 		half = strings.Contains(normSleepcmd(src(fd.Body)), "time.NewTicker(f.cfg.SeenCacheTTL / 2)")
 	}
 	g.line("Definition gen_c29_cleanup_every_half_ttl : bool := %s.", coqBool(half))
+	// which functions of the package write to the sleep command seen cache (insert, delete, replace)
+	var writers []string
+	for _, file := range parseDir("internal/flood") {
+		for _, d := range file.Decls {
+			fd, ok := d.(*ast.FuncDecl)
+			if !ok || fd.Body == nil {
+				continue
+			}
+			writes := false
+			ast.Inspect(fd.Body, func(x ast.Node) bool {
+				switch n := x.(type) {
+				case *ast.CallExpr:
+					if id, ok := n.Fun.(*ast.Ident); ok && (id.Name == "delete" || id.Name == "clear") && len(n.Args) >= 1 && strings.HasSuffix(selName(n.Args[0]), ".sleepCmdSeenCache") {
+						writes = true
+					}
+				case *ast.AssignStmt:
+					for _, l := range n.Lhs {
+						if ix, ok := l.(*ast.IndexExpr); ok && strings.HasSuffix(selName(ix.X), ".sleepCmdSeenCache") {
+							writes = true
+						}
+						if strings.HasSuffix(selName(l), ".sleepCmdSeenCache") {
+							writes = true
+						}
+					}
+				case *ast.KeyValueExpr:
+					if id, ok := n.Key.(*ast.Ident); ok && id.Name == "sleepCmdSeenCache" {
+						writes = true
+					}
+				}
+				return true
+			})
+			if writes {
+				writers = append(writers, fd.Name.Name)
+			}
+		}
+	}
+	sort.Strings(writers)
+	wi := make([]string, len(writers))
+	for i, w := range writers {
+		wi[i] = coqString(w)
+	}
+	g.line("Definition gen_c29_sleep_cache_writers : list string := [%s]%%string.", strings.Join(wi, "; "))
 	// the issuing paths record the issuer's own command before anything is sent
 	for _, k := range []string{"Sleep", "Wake"} {
 		ok := false
